@@ -13,6 +13,7 @@ C07 — obligations over the TRANSLATED piecewise-affine source (`Generated/C07S
 -/
 import MenpoModel.Generated.C07Src
 import MenpoModel.Props.C07
+import MenpoModel.GenProps.C07Src
 
 set_option linter.unusedSimpArgs false
 set_option linter.unusedVariables false
